@@ -126,9 +126,11 @@ func NewEncryptedISO(f afero.File, data1 []byte, clearRegions bool) (*EncryptedI
 
 		// encrypted region placed between previous unencrypted region and current unencrypted region,
 		// unencrypted region end sector is inclusive (i.e. whole plain disc has one region {0, last sector})
+		// borders are 32-bit unsigned, sizeSectors is signed: sectors which can't be addressed are never read
+		// (see maxEncryptedISOSize), so it's safe to move borders lying there instead of letting them wrap
 		encryptedRegions = append(encryptedRegions, region{
-			start: sizeSectors(unencryptedRegions[i-1].End).next(),
-			end:   sizeSectors(unencryptedRegion.Start),
+			start: sizeSectors(min(int64(unencryptedRegions[i-1].End)+1, math.MaxInt32)),
+			end:   sizeSectors(min(int64(unencryptedRegion.Start), math.MaxInt32)),
 		})
 	}
 
